@@ -1,5 +1,7 @@
 import PugModel.Tpl.Exec
 import PugModel.JS.HeapSpec
+import PugModel.Tpl.Compile
+import PugProofs.C03.Frame
 /-!
 # C20 — array/string methods match their JavaScript namesakes over any call sequence
 
@@ -254,5 +256,65 @@ theorem C20_sequence (ops : List Op) (st : St) (rs : List Val) (s' : List (List 
 /-- non-vacuity: push through one address, read through the alias (same address), splice, push again -/
 example : (jsRun [.push 0 (.N 9), .length 0, .splice 0 1, .push 0 (.N 7), .length 1] [[.N 1, .N 2]]).map (·.2) =
     some [[.N 1, .N 7], [.N 2, .N 9]] := by decide
+
+/-! ## the starting array: a literal has exactly the entries that were written -/
+
+/-- a monadic map in the compiler's monad keeps the length -/
+theorem mapM_ok_length {α β : Type} (f : α → CM β) : ∀ (l : List α) (r : List β), l.mapM f = .ok r → r.length = l.length := by
+  intro l
+  induction l with
+  | nil => intro r h; simp [List.mapM_nil, pure, Except.pure] at h; subst h; rfl
+  | cons a rest ih =>
+    intro r h
+    simp only [List.mapM_cons, bind, Except.bind] at h
+    cases ha : f a with
+    | error e => simp [ha] at h
+    | ok b =>
+      simp only [ha] at h
+      cases hr : rest.mapM f with
+      | error e => simp [hr] at h
+      | ok bs =>
+        simp [hr, pure, Except.pure] at h
+        subst h
+        simp [ih bs hr]
+
+/-- **C20 (the array literal, compile side).** For EVERY array literal - any elements, `null` among them, any nesting - the transpiler
+emits ONE call of `__op__array` with exactly one operand per written entry: no entry is dropped or merged (a `null` entry becomes the
+operand `null`, it keeps its position). -/
+theorem C20_array_literal_keeps_every_entry (fuel : Nat) (env : CEnv) (es : List JS.Expr) (t : Option TExpr)
+    (h : compileExprF (fuel + 1) env (.arr es) = .ok t) :
+    ∃ ts, t = some (.fcall "__op__array" ts) ∧ ts.length = es.length := by
+  simp only [compileExprF, bind, Except.bind] at h
+  split at h
+  · cases h
+  · rename_i ts hts
+    simp [pure, Except.pure] at h
+    exact ⟨ts, h.symm, mapM_ok_length _ _ _ hts⟩
+
+/-- **C20 (the array literal, run side).** For EVERY operand list and state, `__op__array` allocates ONE new array that holds exactly
+the operands (converted, in order, `null` included - so its length is the number of written entries), returns it, and leaves every
+other array and map and the rest of the state untouched. -/
+theorem C20_array_literal_allocates (items : List Val) (st st' : St) (v : Val)
+    (h : callBuiltin "__op__array" items st = .ok (v, st')) :
+    v = .arr st.heap.arrs.length ∧ st'.heap.getArr st.heap.arrs.length = items.map convertRaw ∧
+    (st'.heap.getArr st.heap.arrs.length).length = items.length ∧
+    (∀ a, a < st.heap.arrs.length → st'.heap.getArr a = st.heap.getArr a) ∧
+    (∀ a, a < st.heap.maps.length → st'.heap.getMap a = st.heap.getMap a) ∧ st'.vars = st.vars ∧ st'.out = st.out := by
+  have hc : callBuiltin "__op__array" items = allocArr (items.map convertRaw) := by
+    unfold callBuiltin
+    rfl
+  rw [hc] at h
+  obtain ⟨g, hv⟩ := C03F.allocArr_grows _ _ _ _ h
+  have hnew : st'.heap.getArr st.heap.arrs.length = items.map convertRaw := by
+    simp [allocArr, Heap.allocArr, getHeap, setHeap, bind, StateT.bind, Except.bind, get, getThe, MonadStateOf.get, StateT.get, pure,
+      Except.pure, StateT.pure, modify, modifyGet, MonadStateOf.modifyGet, StateT.modifyGet] at h
+    obtain ⟨_, rfl⟩ := h
+    simp [Heap.getArr, List.getD]
+  obtain ⟨h1, _, h3, _, _, _⟩ := g.rest
+  exact ⟨hv, hnew, by simp [hnew], g.getArr, g.getMap, h1, h3⟩
+
+/-! non-vacuity: `[true, null, y]` compiles to three operands, the middle one the operand `null` -/
+example : ∃ ts, compileExprF 5 { funcs := [], parserFuncs := [] } (.arr [.bool true, .null, .ident "y"]) = .ok (some (.fcall "__op__array" ts)) ∧
+    ts.length = 3 := ⟨[.lit (.bool true), nullCall, .var "y"], rfl, rfl⟩
 
 end Pug.Props.C20
